@@ -321,6 +321,42 @@ theorem prefix_mono {b src : CVol} (h1 : b.v.log = src.v.log) (h2 : b.ats = src.
   · rw [ha, h2, ← hok.alen]; simp
   · rw [hi, h3, ← hok.ilen]; simp
 
+/-! ## any number of runs -/
+
+theorem incr_append_left {lo : Nat} {a b : List (Nat × Op)} (h : Incr lo (a ++ b)) : Incr lo a := by
+  induction a generalizing lo with
+  | nil => trivial
+  | cons o a ih => obtain ⟨t, op⟩ := o; exact ⟨h.1, ih h.2⟩
+
+/-- the source moves on by `ops2`: a synchronised backup holds a prefix of the new source -/
+theorem prefix_after_more_ops (kind : Kind) (ttl : Nat × Nat) (ops1 ops2 : List (Nat × Op)) (hinc : Incr 0 ops1) (b : CVol)
+    (hfull : Prefix b (runOps (CVol.init kind ttl) ops1) (runOps (CVol.init kind ttl) ops1).v.log.length) :
+    Prefix b (runOps (CVol.init kind ttl) (ops1 ++ ops2)) (runOps (CVol.init kind ttl) ops1).v.log.length := by
+  have hok : SrcOK (runOps (CVol.init kind ttl) ops1) :=
+    srcok_run (suf_refl (wf_init kind ttl)) (srcok_init kind ttl) 0 ops1 (fun a h => by simp [CVol.init] at h) hinc
+  obtain ⟨ext, exta, suf, hs⟩ := suf_run (suf_refl (wf_reachable kind ttl ops1)) ops2
+  rw [runOps_append]
+  obtain ⟨h1, h2, h3⟩ := prefix_full hok hfull
+  exact prefix_mono h1 h2 h3 _ ext exta suf hs.hlog hs.hats hs.hilog hok
+
+/-- two runs with the source moving on in between (the induction step for any number of runs) -/
+theorem backup_converges_twice (kind : Kind) (ttl : Nat × Nat) (ops1 ops2 : List (Nat × Op))
+    (hinc : Incr 0 (ops1 ++ ops2)) (hne : NoEmpty (runOps (CVol.init kind ttl) (ops1 ++ ops2)))
+    (b0 : CVol) (n0 : Nat) (hp0 : Prefix b0 (runOps (CVol.init kind ttl) ops1) n0) (s1 t1 s2 t2 t k : Nat) :
+    backupView (backupRun (backupRun b0 (runOps (CVol.init kind ttl) ops1) s1 t1).1
+        (runOps (CVol.init kind ttl) (ops1 ++ ops2)) s2 t2).1 t k
+      = view (runOps (CVol.init kind ttl) (ops1 ++ ops2)) t k := by
+  have hinc1 := incr_append_left hinc
+  have hne1 : NoEmpty (runOps (CVol.init kind ttl) ops1) := by
+    obtain ⟨ext, exta, suf, hs⟩ := suf_run (suf_refl (wf_reachable kind ttl ops1)) ops2
+    intro e he
+    apply hne e
+    rw [runOps_append, hs.hilog]
+    exact List.mem_append_left _ he
+  have h1 := (backup_converges_partial kind ttl ops1 hinc1 hne1 b0 n0 hp0 s1 t1 t k).1
+  have h2 := prefix_after_more_ops kind ttl ops1 ops2 hinc1 _ h1
+  exact (backup_converges_partial kind ttl (ops1 ++ ops2) hinc hne _ _ h2 s2 t2 t k).2
+
 /-! ## the full-strength statement is false of the code: witnesses (replayed in corpus/C37/witnesses.ops) -/
 
 def blob (d : String) : Content := { data := d }
